@@ -1144,13 +1144,13 @@ class Evaluator:
 
     def _combinator(self, callee):
         if not callee.startswith("core::"):
-            return None
+            return None      # in crates built against std (the C API shim) these calls stay opaque: its rules read them as calls
         meth = callee.rsplit("::", 1)[-1]
         if "option::Option" in callee and meth in self._COMB["option"]:
             return ("option", meth)
         if "result::Result" in callee and meth in self._COMB["result"]:
             return ("result", meth)
-        if ("<impl bool>" in callee or "core::bool::" in callee) and meth in self._COMB["bool"]:
+        if ("<impl bool>" in callee or "core::bool::" in callee or "std::bool::" in callee) and meth in self._COMB["bool"]:
             return ("bool", meth)
         return None
 
